@@ -176,8 +176,32 @@ let model_O toks =
   | OVFault k -> Printf.sprintf "UAF %d tr=-" (int_of_nat k)
   | OVNoFuel k -> Printf.sprintf "NOFUEL %d" (int_of_nat k)
 
+(* ---- R: the pen stack of a render buffer ------------------------------------------------ *)
+let r_lines = nat_of_int 3
+let parse_rop (s : string) : rop =
+  match s.[0] with
+  | 's' -> RSave
+  | 'S' -> RSavePen
+  | 'x' -> RRestore
+  | 'p' -> RSetPen (s <> "pN")
+  | 't' -> RText (nat_of_int (int_of_string (rest s)))
+  | 'e' -> RErase (nat_of_int (int_of_string (rest s)))
+  | 'c' -> RClear
+  | 'z' -> RReset
+  | 'f' | 'F' -> RFlush
+  | _ -> failwith ("R op " ^ s)
+
+let model_R toks =
+  match rb_run r_lines (List.map parse_rop toks) with
+  | RVOk (obs, lp, ls) ->
+    let cell ((p, s), f) = Printf.sprintf "%d.%d.%d" (int_of_z p) (int_of_z s) (int_of_z f) in
+    Printf.sprintf "OK %s end=%d.%d leak=0"
+      (if obs = [] then "-" else String.concat "," (List.map cell obs)) (int_of_z lp) (int_of_z ls)
+  | RVFault k -> Printf.sprintf "UAF %d tr=-" (int_of_nat k)
+
 let model variant line =
   match split_ws line with
+  | "R" :: toks -> model_R toks
   | "W" :: toks -> model_W variant toks
   | "T" :: toks -> model_T variant.v_destroy_asis toks
   | "O" :: toks -> model_O toks
@@ -223,6 +247,10 @@ let oracle line =
        let ops = if completed then ops else
            (match otoks with _ :: k :: _ -> take (int_of_string k + 1) ops | _ -> ops) in
        if oracle_O ops completed leak then "OK" else "BAD well-formed client, implementation: " ^ obs
+     | "R" :: _ ->
+       (* every program of render buffer calls is a well-formed client *)
+       if completed && not leak && field "end" otoks = Some "0.0" then "OK"
+       else "BAD render buffer calls only, implementation: " ^ obs
      | "T" :: _ -> if oracle_T completed then "OK" else "BAD wrote beyond the length given: " ^ obs
      | _ -> "BAD kind")
 
